@@ -128,6 +128,19 @@ CLAIMED = {
              "(sampled schedules); the redraw bytes are compared with the implementation byte for byte.",
         note=TTY_NOTE + "Thread schedules below the protocol steps, and racing with the start/end of a read, are sampled.",
         technique="Coq proof: invariant over an inductively defined step relation (all interleavings), progress by case analysis; editor-side by the keeps-calculus; extracted-model differential check of the message redraw through a pty + exactly-once/order oracle with an independent emulator"),
+    "C20": dict(
+        text="PARTIAL (row bookkeeping proved, search clause tested). Theorems over a model of sqlite_history.rs (history table as "
+             "rows in rowid order, cached maximal rowid, session, INSERT OR REPLACE under the unique index): for every sequence "
+             "of adds, gets, limit changes and reopens the rowids stay strictly increasing along the table, which is the order of "
+             "(last) entry; an accepted line becomes the newest row and a copy entered in the same session disappears; add "
+             "refuses exactly the empty line, a zero limit and a leading blank under ignore-space; walking from the newest row "
+             "down (largest rowid at or below the index) and back up visits every row exactly once, in order, whatever gaps the "
+             "rowids have. The model is compared with the bundled SQLite on every answer. The search clause (returns nothing or "
+             "an entry that really contains / starts with the text, never an error) has no theorem: it is an oracle on the "
+             "implementation for single alphanumeric words; known finding K4 (other search texts; prefix hits on entries with "
+             "a leading separator); F18 (stale full-text index after a replaced duplicate) repaired.",
+        note=COMMON_NOTE + "SQLite (storage, rowids, FTS4) is trusted/observed, not modelled; durability is SQLite's.",
+        technique="Coq proof: invariant by induction over op sequences (StronglySorted rowids), induction over the row list for the walks; extracted-model differential check against the bundled SQLite on temporary databases + search oracle"),
     "C13": dict(
         text="Theorems for every validator, editor state and text: executing Enter / C-j / C-m says Submit only if the verdict on "
              "the current text is Valid, and then text and cursor are exactly those validated; a Valid verdict does submit; "
